@@ -132,6 +132,7 @@ def run(tier, seed, mutant=None, only_validate=False):
                 for p in ((1, 2) if tier == "quick" else (1, 2, 3)) for c in ("future", "sync")]
         # function evaluations may raise (logged and dropped: stop_on_exception=False)
         cfgs += [{"kind": "map_async", "parallelism": 2, "cons": ["future"], "max_elems": ne, "falsy": {"none": 2, "zero": 3}}]
+        cfgs += [{"kind": "map_async", "parallelism": 2, "cons": ["future"], "max_elems": ne, "feeder": "plain"}]
         # callbacks one at a time: emissions and function completions fall between two callbacks of one loop iteration
         import itertools
         import random as _random
